@@ -162,26 +162,26 @@ PUMP = " Pumped linear families (refmodel::pump) complement the small-scope sear
 
 # families added after the seed rounds on rarely used routes and on history (DESIGN 10.6, sixth round)
 EXTRA = {
-    "C01": " Value::parse_in with each of the four root contexts. Re-entrancy: a nested parse started from the character source at every pull of the outer document. Deep documents around every plausible nesting limit (1e3 .. 1e6, closed / unclosed / one closer too many). Alignment sweep (the same bytes 0, 1, 4, 7 past a 16-byte boundary). A 14th entry point: characters announced with their UTF-16 lengths. History: every sequence of calls of length 2 over 65 documents x entry points and of length 3 (4 thorough) over a core alphabet is run on a fresh thread; every step must equal the same call made first on a fresh thread. The named option records (strict, default, flexible) are checked against their documentation.",
-    "C02": " Values parsed on one fresh thread and queried on another. Every lookup iterator through the whole Iterator protocol (size_hint, count, last, fold, nth fresh and after 1-3 next(), skip, step_by). All 13 entry points on every node of at most 9 (11) bytes and on every structured family; history sequences as in C01.",
+    "C01": " Edges of the hex-digit class and of every other character class (neighbour / case / look-alike substitution). Value::parse_in with each of the four root contexts. Re-entrancy: a nested parse started from the character source at every pull of the outer document. Deep documents around every plausible nesting limit (1e3 .. 1e6, closed / unclosed / one closer too many). Alignment sweep (the same bytes 0, 1, 4, 7 past a 16-byte boundary). A 14th entry point: characters announced with their UTF-16 lengths. History: every sequence of calls of length 2 over 65 documents x entry points and of length 3 (4 thorough) over a core alphabet is run on a fresh thread; every step must equal the same call made first on a fresh thread. The named option records (strict, default, flexible) are checked against their documentation.",
+    "C02": " Strings and keys of 2^20..2^21 bytes followed by other strings. Values parsed on one fresh thread and queried on another. Every lookup iterator through the whole Iterator protocol (size_hint, count, last, fold, nth fresh and after 1-3 next(), skip, step_by). All 13 entry points on every node of at most 9 (11) bytes and on every structured family; history sequences as in C01.",
     "C03": " Non-fused sources (None once, then an error / more characters). Source failures after the deep first item of an outer container (endings 10-18). Flat documents in the 64 KiB stack: 17 kinds of repetition without nesting at n = 10^6. Pump entry 2: the parse is made from a destructor while the thread is unwinding from a panic. Sources with extreme size hints (6 hints x 60 documents) and endless sources; re-entrant sources. Pump endings 7-9: the closed deep value followed by an ill-formed byte, by whitespace and a truncated sequence, by a failing character source; depths 100 003, 131 073 and 1 000 003 in the quick tier. Every node is also fed from a source that answers an error after the node's last character (an Err must come back, nothing is pulled afterwards); history sequences as in C01.",
-    "C05": " Code maps of documents accepted only under a lenient record (T-sur). Alignment sweep of parse_slice; a 14th entry point whose characters are announced with their UTF-16 lengths (positions translated back). All 13 entry points on every node of at most 9 (11) bytes and on every structured family; the seven routes to the code map's entries (iter, as_slice, Deref, AsRef, Borrow, both IntoIterator impls) must agree; history sequences as in C01.",
-    "C07": " Every comparison also through a source that starts the document at offset 2^32 + 5. Long inputs with two defects (syntax error and ill-formed UTF-8 in both orders). Deep documents; UTF-16-length entry point; alignment sweep. Failing source: every node is also fed from a source that answers an error after the node's last character - an error strictly before it wins, otherwise Stream(bytes consumed) with the source's error value intact (the mechanism behind InvalidUtf8 in parse_slice); history sequences as in C01.",
-    "C11": " Planted mismatches under duplicated keys (four key patterns). The code map obtained from characters announced with their UTF-16 lengths, translated back, must equal the UTF-8 one. sub_fragments() of every fragment forwards, backwards and alternately from both ends against the children computed from the code map; map conversions on non-objects (root, nested, through Box), unparsable map keys reported at the key fragment, TryFromJsonObject.",
+    "C05": " Strings and keys of 2^20..2^21 bytes followed by other strings. Code maps of documents accepted only under a lenient record (T-sur). Alignment sweep of parse_slice; a 14th entry point whose characters are announced with their UTF-16 lengths (positions translated back). All 13 entry points on every node of at most 9 (11) bytes and on every structured family; the seven routes to the code map's entries (iter, as_slice, Deref, AsRef, Borrow, both IntoIterator impls) must agree; history sequences as in C01.",
+    "C07": " Edges of the hex-digit class and of every other character class. Every comparison also through a source that starts the document at offset 2^32 + 5. Long inputs with two defects (syntax error and ill-formed UTF-8 in both orders). Deep documents; UTF-16-length entry point; alignment sweep. Failing source: every node is also fed from a source that answers an error after the node's last character - an error strictly before it wins, otherwise Stream(bytes consumed) with the source's error value intact (the mechanism behind InvalidUtf8 in parse_slice); history sequences as in C01.",
+    "C11": " Maps of maps with a planted mismatch after non-empty objects. Planted mismatches under duplicated keys (four key patterns). The code map obtained from characters announced with their UTF-16 lengths, translated back, must equal the UTF-8 one. sub_fragments() of every fragment forwards, backwards and alternately from both ends against the children computed from the code map; map conversions on non-objects (root, nested, through Box), unparsable map keys reported at the key fragment, TryFromJsonObject.",
     "C12": " Six fixed escapes (three highs, two lows, one ordinary) followed and preceded by every one of the 65 536 escapes. History sequences as in C01 (including the lenient record); named option records.",
-    "C04": " Print history on a thread (working / failing / panicking destinations); deciding-character positions dense to 1 100. Printing at thread exit; eight threads printing at once (sampled). Failing destination: printing into a writer that accepts k bytes, for every k, then a normal print on the same thread. The option-less conversions (Display, to_string, String::from(value)) must round-trip as well.",
-    "C13": " All 81 ordered pairs of limit kinds (array x object) around long scalars. Print history on a thread; indentation runs across 2^15 and 2^16. P2-all: every ordered pair of 101 neighbouring characters at several offsets under straddling width limits. Every numeric option field through the dense size list on four base records. Display under caller format parameters. Depth x indent family: nesting depths 1..40 and around 48/64/86/128 x 25 indent units, pretty and always-expanded. Other print routes: Print::fmt_with at base indentation levels 1 and 2 (the level-0 text with k more indent units after every line break), &Value, Meta<Value, M>, Stripped<Meta<...>>.",
+    "C04": " Re-entrant destinations. Print history on a thread (working / failing / panicking destinations); deciding-character positions dense to 1 100. Printing at thread exit; eight threads printing at once (sampled). Failing destination: printing into a writer that accepts k bytes, for every k, then a normal print on the same thread. The option-less conversions (Display, to_string, String::from(value)) must round-trip as well.",
+    "C13": " Re-entrant destinations. All 81 ordered pairs of limit kinds (array x object) around long scalars. Print history on a thread; indentation runs across 2^15 and 2^16. P2-all: every ordered pair of 101 neighbouring characters at several offsets under straddling width limits. Every numeric option field through the dense size list on four base records. Display under caller format parameters. Depth x indent family: nesting depths 1..40 and around 48/64/86/128 x 25 indent units, pretty and always-expanded. Other print routes: Print::fmt_with at base indentation levels 1 and 2 (the level-0 text with k more indent units after every line break), &Value, Meta<Value, M>, Stripped<Meta<...>>.",
     "C09": " Writes through every &mut Value accessor between canonicalizations. Deciding key pairs among 15..257 filler members. Every assignment of 6 value kinds to the members of every selection of up to 3 keys; decimal-point-shifted spellings. Operation sequences (canonicalize / sort / push / remove / clone / clone_from, up to 3-4 steps) before canonicalization. Medium-precision spellings: every structured double rounded to 14..18 significant digits, last digit -1/0/+1, exponent and positional notation, both signs. Prefixed-keys family: common prefixes of every length 0..17 and around 24/32/64 (1-, 2-, 3-, 4-byte characters) x every ordered pair of 14 deciding tails x 3 suffix patterns. Every value is canonicalized through Value::canonicalize, Value::canonicalize_with with a number buffer reused across all calls of the thread, and (objects) Object::canonicalize / canonicalize_with; the routes must agree.",
     "C10": " Writes through every &mut Value accessor between canonicalizations. Value kinds and shifted spellings as in C09. Operation sequences as in C09. All medium-precision spellings of one double must canonicalize identically. Prefixed-keys family as in C09, also with equal member values. Every document is read through parse_str and parse_slice; both must canonicalize identically.",
     "C15": " Permutation twins under a 2- or 3-fold duplicated key, all pairs. Every ordered pair of 32 confusable scalars in five shapes. Objects whose extend was interrupted by a panicking source. Objects built through grow-and-drain routes (peaks through the index thresholds, four removal patterns) against fresh permutations. Pumped objects also with every value wrapped in a two-member object whose members are swapped in every other entry; Meta<Value, M> and Vec<Value> carriers.",
     "C16": " Empty payloads (field-less / all-skipped struct variants, empty structs and tuples). Every leaf kind x 11 buffered (flatten / tagged / untagged) placements. Maps with number-like keys inside untagged / internally tagged / flattened types; hand-written impls with every length-hint pattern. Std containers and smart pointers (Box, Cow, arrays, 1-tuples, sets, deques, nested options, NonZero, Duration, Range, Result, paths, addresses) and a collect_str type as value and key.",
     "C06": " Guards dropped while the thread unwinds (disciplines unwind, one-unwind); thread-hopping replay of counterexamples. Start states drained to 0-1 entries and refilled with every 2..4-entry layout over two keys (duplicate layouts x an oversized table). Action canonicalize() and a run over two keys on which code-point and UTF-16 order differ; panicking value constructors. Actions extend_entries_then_panic / extend_pairs_then_panic (source panics after k items, panic caught, object reused); lookup iterators through the whole Iterator protocol in every audit. Hash mode 3 (hook): every key index gets its own seed, as in production; action clone_from(n) into an independently built object; audits are not memoised in that mode.",
-    "C14": " A law universe over keys on which byte order and UTF-16 order differ. Leaked guards (mem::forget after k steps of remove / insert / insert_front) against an object rebuilt from the leaked object's own entries. Operators < <= > >=, min and max on bare Objects against cmp. clone_from law on every ordered pair of values. Construction routes with real spare capacity (fresh buffers), truncated long keys, clones. Wide-object laws: for every n through the size thresholds, a base object and every combination of two out of eight edits (37 objects): == structural, cmp antisymmetric, Equal iff equal, transitive on all triples, hashes.",
+    "C14": " Deep pairs (re-bracketing twins under up to 1 000 containers). A law universe over keys on which byte order and UTF-16 order differ. Leaked guards (mem::forget after k steps of remove / insert / insert_front) against an object rebuilt from the leaked object's own entries. Operators < <= > >=, min and max on bare Objects against cmp. clone_from law on every ordered pair of values. Construction routes with real spare capacity (fresh buffers), truncated long keys, clones. Wide-object laws: for every n through the size thresholds, a base object and every combination of two out of eight edits (37 objects): == structural, cmp antisymmetric, Equal iff equal, transitive on all triples, hashes.",
     "C19": " Side-effecting keys must be evaluated once each, in written order. A side-effecting key expression with a call counter checked by every program. 18 token shapes of expression keys x 2 keys x 5 placements. Boundary literals: the limits of every integer and float width (type-suffixed), one step inside each, and the decimal thresholds, in three contexts; every program is built under catch_unwind so that a panic is attributed to its program.",
     "C18": " Sticky spellings with > 1 000 integer digits and a negative exponent. Decimal point moved 1..25 places with the exponent adjusted for 12 extreme doubles. Sticky-digit spellings (midpoint of two doubles, zeros past the 1 100th fraction digit, a final 1). Objects shaped like serde_json's arbitrary-precision number encoding (7 payloads x 4 placements) from both sides.",
     "C20": " Iteration order checked against Kind's own Ord; KindSetIter through the whole (double-ended) Iterator protocol. Every rendering under eight caller format specs: the plain text, or the plain text formatted as a whole.",
-    "C08": " Print history on a thread (working / failing / panicking destinations, then 7 compact and preset routes). Compact printing from a thread-local destructor at thread exit. Display under six caller format specs (width, fill, alignment, precision, alternate, zero): the compact text, or that text formatted as a whole (defect D15, fixed).",
-    "C17": " Duplicate layouts of up to 5 members over three keys longer than 16 bytes. 13 reserved-looking keys x 12 payloads x 6 placements; every serde_json route into Value. deserialize_in_place (provided method) on every ordered pair of small values, bare and through Vec<Value>. Build-configuration dimension: a probe program compiled under every feature set containing serde must give identical digests of to_value / from_value::<Value>. Coherence: Object's own Serialize / Deserialize impls must agree with Value's on every object, duplicates included.",
+    "C08": " Re-entrant destinations. Print history on a thread (working / failing / panicking destinations, then 7 compact and preset routes). Compact printing from a thread-local destructor at thread exit. Display under six caller format specs (width, fill, alignment, precision, alternate, zero): the compact text, or that text formatted as a whole (defect D15, fixed).",
+    "C17": " Integral doubles at the edges of the integer types in float spellings (exact integer on return). Duplicate layouts of up to 5 members over three keys longer than 16 bytes. 13 reserved-looking keys x 12 payloads x 6 placements; every serde_json route into Value. deserialize_in_place (provided method) on every ordered pair of small values, bare and through Vec<Value>. Build-configuration dimension: a probe program compiled under every feature set containing serde must give identical digests of to_value / from_value::<Value>. Coherence: Object's own Serialize / Deserialize impls must agree with Value's on every object, duplicates included.",
 }
 
 props = [json.loads(l) for l in open(f"{root}/properties.jsonl")]
